@@ -843,6 +843,19 @@ def _get_position(node: ast.AST) -> _Position:
     return _Position(lineno, col_offset, end_lineno, end_col_offset)
 
 
+def _get_charno(source: str, lineno: int, col_offset: int) -> int:
+    """Character number of the position (lineno, col_offset) of an ast node in source.
+
+    The col_offset of an ast node counts utf-8 bytes, not characters."""
+    charno = _get_line_start_charnos(source)[lineno - 1]
+    if source.isascii() or col_offset <= 0:
+        return charno + col_offset
+
+    # col_offset characters are at least col_offset bytes
+    line_bytes = source[charno : charno + col_offset].encode("utf-8", "surrogatepass")
+    return charno + len(line_bytes[:col_offset].decode("utf-8", "ignore"))
+
+
 def get_charnos(node: ast.AST, source: str, keep_first_indent: bool = False) -> Range:
     """Get start and end character numbers in source code from ast node.
 
@@ -853,7 +866,6 @@ def get_charnos(node: ast.AST, source: str, keep_first_indent: bool = False) -> 
     Returns:
         Tuple[int, int]: start, end
     """
-    line_start_charnos = _get_line_start_charnos(source)
     if match_template(node, ast.AST(decorator_list=list)) and node.decorator_list:
         start = min(node.decorator_list, key=_get_position)
     else:
@@ -862,11 +874,11 @@ def get_charnos(node: ast.AST, source: str, keep_first_indent: bool = False) -> 
     start_position = _get_position(start)
     node_position = _get_position(node)
 
-    start_charno = line_start_charnos[start_position.lineno - 1] + start_position.col_offset
+    start_charno = _get_charno(source, start_position.lineno, start_position.col_offset)
     if getattr(node, "end_lineno", None) is None:
         return Range(start_charno, start_charno)
 
-    end_charno = line_start_charnos[node_position.end_lineno - 1] + node_position.end_col_offset
+    end_charno = _get_charno(source, node_position.end_lineno, node_position.end_col_offset)
 
     code = source[start_charno:end_charno]
     if code and code[0] == " ":
